@@ -1018,6 +1018,8 @@ class Interp:
 
     def store_subscript(self, o, k, v):
         ctx = self.ctx
+        if isinstance(k, Choice) and isinstance(o, dict):
+            k = ops.resolve_choice(ctx, k)
         if isinstance(o, dict):
             if is_concrete(k):
                 self.note_write(o, k)
